@@ -375,6 +375,10 @@ def run_mc_set(rep, binp, configs, what, module='MC_DecQ', kind='dec'):
                 new['h'] = gid
                 plan = history_to_plan([json.dumps(new)] + [json.dumps(c) for c in h['calls']])
                 plan['h'] = gid
+                if kind == 'dec':
+                    # the caller also asks latin1_byte_compatible_up_to about the bytes of every call (model: lq)
+                    plan['lat'] = True
+                    plan['latsrc'] = True
                 f.write(json.dumps(plan) + '\n')
             spans.append((run, hists, start))
     if gid == 0:
@@ -393,9 +397,15 @@ def run_mc_set(rep, binp, configs, what, module='MC_DecQ', kind='dec'):
             if e['ev'] in ('N', 'NE'):
                 cur = e.get('orig', e['h'])
                 real[cur] = []
+                lq = None
+            elif e['ev'] == 'L':
+                lq = e['ret']
             elif e['ev'] in ('D', 'E') and cur is not None:
+                if kind == 'dec':
+                    e['lq'] = lq
+                    lq = None
                 real[cur].append(e)
-    keys = ('res', 'ml', 'ma', 'read', 'written', 'out', 'had', 'enc', 'cap', 'q') if kind == 'dec' else ('res', 'um', 'read', 'written', 'out', 'had', 'pending', 'cap', 'q')
+    keys = ('res', 'ml', 'ma', 'read', 'written', 'out', 'had', 'enc', 'cap', 'q', 'lq') if kind == 'dec' else ('res', 'um', 'read', 'written', 'out', 'had', 'pending', 'cap', 'q')
     for run, hists, start in spans:
         drift = 0
         first = None
